@@ -560,6 +560,11 @@ func (g *rawGen) bundle() (map[string]string, []string) {
 	m.WriteString("import \"buf/validate/validate.proto\";\nimport \"j5/ext/v1/annotations.proto\";\nimport \"j5/list/v1/annotations.proto\";\nimport \"j5/types/any/v1/any.proto\";\nimport \"j5/types/date/v1/date.proto\";\nimport \"j5/types/decimal/v1/decimal.proto\";\nimport \"google/protobuf/timestamp.proto\";\nimport \"rawb/v1/shared.proto\";\n\n")
 	n := 0
 	num := func() int { n++; return n }
+	if g.on() {
+		// the less common entity parts
+		m.WriteString("message ThingRefs {\n  option (j5.ext.v1.psm) = {entity_name: \"thing\" entity_part: ENTITY_PART_REFERENCES};\n  string other_id = 1;\n}\n\n")
+		m.WriteString("message ThingDerived {\n  option (j5.ext.v1.psm) = {entity_name: \"thing\" entity_part: ENTITY_PART_DERIVED};\n  int64 total = 1;\n}\n\n")
+	}
 	m.WriteString("message Member {\n")
 	if g.on() {
 		m.WriteString("  option (j5.ext.v1.message).object = {any_member: [\"payload\", \"other\"]};\n")
@@ -625,6 +630,10 @@ func (g *rawGen) bundle() (map[string]string, []string) {
 	}
 	if g.on() {
 		fmt.Fprintf(&m, "  j5.types.any.v1.Any open = %d;\n", num())
+	}
+	if g.on() {
+		// types listed as a hint, other types still allowed
+		fmt.Fprintf(&m, "  j5.types.any.v1.Any hinted = %d [(j5.ext.v1.field).any = {types: [\"rawa.v1.Member\", \"rawb.v1.Shared\"]}];\n", num())
 	}
 	if g.on() {
 		fmt.Fprintf(&m, "  Holder self = %d;\n", num())
